@@ -255,7 +255,7 @@ func c09SynthCase(h *H, n int, full bool) {
 	id := func(kind string, i int) restic.ID { return restic.Hash([]byte(fmt.Sprintf("%s-%d-%d-%d", kind, h.Seed, n, i))) }
 	nBlobs := 1 + h.Intn(24)
 	nPacks := 1 + h.Intn(10)
-	many := h.Intn(40) == 0 // counter saturation: one blob in > 255 packs
+	many := h.Intn(15) == 0 // counter saturation: one blob in > 255 packs
 	smallRule := h.Intn(6) == 0
 	if smallRule {
 		nPacks = 8 + h.Intn(10)
@@ -375,7 +375,7 @@ func c09SynthCase(h *H, n int, full bool) {
 		missProb, wrongProb = 8, 4
 	}
 	for _, p := range packs {
-		if h.Intn(100) < missProb {
+		if h.Intn(100) < missProb || (p.size == 36 && h.Intn(4) != 0) {
 			continue
 		}
 		sz := p.size
@@ -389,8 +389,14 @@ func c09SynthCase(h *H, n int, full bool) {
 	}
 	var used []restic.BlobHandle
 	usedProb := 20 + h.Intn(75)
+	placed := map[restic.ID]bool{}
+	for _, g := range groups {
+		for _, e := range g {
+			placed[e.ID] = true
+		}
+	}
 	for _, b := range blobs {
-		if h.Intn(100) < usedProb {
+		if placed[b.h.ID] && h.Intn(100) < usedProb {
 			used = append(used, b.h)
 		}
 	}
@@ -821,6 +827,7 @@ type c09PruneRun struct {
 	used   []restic.BlobHandle
 	o      c09Opts
 	labels []string
+	ck0    bool // `check --read-data` reports no error before prune
 }
 
 // c09TraceCase: complete run on a recording backend; returns number of mutations and final state.
@@ -875,6 +882,7 @@ func c09TraceCase(h *H, run *c09PruneRun, stream string) (int, BeState, CmdResul
 		}
 		ckOK, bad, det := c09Verify(be, run.snaps, run.want)
 		h.Rec("verify", B(ckOK), Itoa(bad), Itoa(len(run.snaps)), det)
+		h.Rec("pre", B(run.ck0))
 	}
 	h.End()
 	return rec.Mutations(), after, r
@@ -892,6 +900,7 @@ func c09CrashCase(h *H, run *c09PruneRun, k int, rerun bool) {
 	h.Rec("labels", append([]string{"x"}, run.labels...)...)
 	run.o.rec(h, 0, 0)
 	h.Rec("cut", Itoa(k), Itoa(done), B(r.Err != nil), B(rec.Crashed))
+	h.Rec("pre", B(run.ck0))
 	ckOK, bad, det := c09Verify(be, run.snaps, run.want)
 	h.Rec("verify", B(ckOK), Itoa(bad), Itoa(len(run.snaps)), det)
 	if rerun {
@@ -947,7 +956,11 @@ func c09Prepare(x *c09Hist) (*c09PruneRun, bool) {
 		labels = append(labels, l)
 	}
 	sort.Strings(labels)
-	return &c09PruneRun{st0: st0, snaps: snaps, want: want, used: used, labels: labels}, true
+	ck0 := NewCLI(LoadBackend(st0)).Run("check", "--read-data", "--no-lock").Err == nil
+	if !ck0 {
+		labels = append(labels, "check-fails-before-prune")
+	}
+	return &c09PruneRun{st0: st0, snaps: snaps, want: want, used: used, labels: labels, ck0: ck0}, true
 }
 
 func streamC09(h *H) {
